@@ -95,17 +95,18 @@ impl Ctx {
     }
 }
 
-/// rule text over the relations of `gen_db` (r0(Int,Int) r1(Int,Int) r2(Int,Str,Int) r3(Int) r5(Int,Float))
+/// rule text over the relations of `gen_db` (r0(Int,Int) r1(Int,Int) r2(Int,Str,Int) r3(Int) r6(Int,Int,Int) r7(Int x4))
 fn gen_clause(r: &mut Rng, head_vars: &[&str], agg: Option<&str>) -> String {
     let pool = ["X", "Y", "Z", "W"];
     let mut atoms: Vec<String> = vec![];
     let mut bound: Vec<String> = vec![];
     let n = r.range(1, 3);
     for k in 0..n {
-        let rel = *r.pick(&["r0", "r1", "r0", "r1", "r3", "r2"]);
+        let rel = *r.pick(&["r0", "r1", "r0", "r1", "r3", "r2", "r6", "r6", "r7"]);
         let arity = match rel {
             "r3" => 1,
-            "r2" => 3,
+            "r2" | "r6" => 3,
+            "r7" => 4,
             _ => 2,
         };
         let mut args = vec![];
@@ -114,7 +115,8 @@ fn gen_clause(r: &mut Rng, head_vars: &[&str], agg: Option<&str>) -> String {
                 args.push(if r.chance(1, 2) { "_".to_string() } else { "\"a\"".to_string() });
                 continue;
             }
-            let v = if k > 0 && a == 0 && !bound.is_empty() && r.chance(3, 4) {
+            // later atoms reuse bound variables at ANY position, so join keys come in every order
+            let v = if k > 0 && !bound.is_empty() && (if a == 0 { r.chance(3, 4) } else { r.chance(2, 5) }) {
                 bound[r.below(bound.len() as u64) as usize].clone()
             } else if r.chance(1, 10) {
                 format!("{}", r.range(0, 3))
@@ -245,6 +247,41 @@ fn main() {
         if let Some(t) = build_ir(src, &rels) {
             for pass in [1u8, 3u8] {
                 cx.emit(pass, true, &rels, &t, &["corpus", "builder", "union-of-joins"], src);
+            }
+        }
+    }
+
+    // two join keys whose right_keys are NOT ascending, projection of the right non-key column:
+    // p(A,B) joined with q(B,A,C)
+    {
+        let rels = vec![
+            ("r0".to_string(), vec![tup(&[1, 2]), tup(&[3, 4]), tup(&[5, 5])]),
+            ("r6".to_string(), vec![tup(&[2, 1, 7]), tup(&[4, 3, 8]), tup(&[1, 2, 9]), tup(&[5, 5, 6])]),
+        ];
+        for (lk, rk) in [(vec![0usize, 1], vec![1usize, 0]), (vec![1, 0], vec![0, 1]), (vec![0, 1, 0], vec![1, 0, 1]), (vec![0], vec![1])] {
+            let nk = 3 - { let mut d = rk.clone(); d.sort(); d.dedup(); d.len() };
+            let join = IRNode::Join {
+                left: Box::new(scan("r0", &["A", "B"])),
+                right: Box::new(scan("r6", &["B2", "A2", "C"])),
+                left_keys: lk.clone(),
+                right_keys: rk.clone(),
+                output_schema: (0..2 + nk).map(|k| format!("j{}", k)).collect(),
+            };
+            let t = IRNode::Map { input: Box::new(join.clone()), projection: vec![2 + nk - 1, 0], output_schema: sv(&["C", "A"]) };
+            cx.emit(0, true, &rels, &t, &["corpus", "unsorted-join-keys"], "corpus");
+            let t = IRNode::Filter {
+                input: Box::new(IRNode::Map { input: Box::new(join), projection: vec![2 + nk - 1, 1], output_schema: sv(&["C", "B"]) }),
+                predicate: Predicate::ColumnGtConst(0, 6),
+            };
+            cx.emit(0, true, &rels, &t, &["corpus", "unsorted-join-keys"], "corpus");
+        }
+        for src in ["q(A, C) <- r0(A, B), r6(B, A, C)", "q(C) <- r0(A, B), r6(B, A, C), C > 6", "q(A, D) <- r6(A, B, C), r7(C, D, B, A)"] {
+            let mut rels = rels.clone();
+            rels.push(("r7".to_string(), vec![tup(&[7, 0, 1, 2]), tup(&[8, 1, 3, 4]), tup(&[9, 2, 2, 1])]));
+            if let Some(t) = build_ir(src, &rels) {
+                for pass in [0u8, 1, 3, 4] {
+                    cx.emit(pass, true, &rels, &t, &["corpus", "builder", "unsorted-join-keys"], src);
+                }
             }
         }
     }
